@@ -6,12 +6,25 @@
 #include <string.h>
 #include <stdint.h>
 
+/* Harness allocations. With -DFAULT_WRAP the driver is linked with --wrap=malloc,calloc,realloc so that the SDK's allocations can be counted and
+ * failed (C19); the harness itself then allocates through the real functions and is never counted. */
+#ifdef FAULT_WRAP
+void *__real_malloc(size_t); void *__real_calloc(size_t, size_t); void *__real_realloc(void *, size_t);
+#define H_MALLOC __real_malloc
+#define H_CALLOC __real_calloc
+#define H_REALLOC __real_realloc
+#else
+#define H_MALLOC malloc
+#define H_CALLOC calloc
+#define H_REALLOC realloc
+#endif
+
 static int hx_val(int c) { if (c >= '0' && c <= '9') return c - '0'; if (c >= 'a' && c <= 'f') return c - 'a' + 10; if (c >= 'A' && c <= 'F') return c - 'A' + 10; return -1; }
 /* decodes hex string s (may be "-" for empty) into malloc'ed buffer (exact size, so ASan sees overruns) */
 static unsigned char *hx_dec(const char *s, size_t *len) {
 	size_t n = strlen(s), i; unsigned char *b;
 	if (strcmp(s, "-") == 0) n = 0;
-	b = malloc(n / 2 + (n == 0));
+	b = H_MALLOC(n / 2 + (n == 0));
 	for (i = 0; i + 1 < n; i += 2) b[i / 2] = (unsigned char)(hx_val(s[i]) << 4 | hx_val(s[i + 1]));
 	*len = n / 2; return b;
 }
